@@ -68,6 +68,13 @@ func debugDump(w *World, what string, args []string) {
 			}
 		}
 		fmt.Println("functions", len(fns), "recognised", ok, "unrecognised", bad)
+	case "prevsentinel":
+		r := NewReport("C09", "quick", "/tmp/dbg")
+		r.W = w
+		RunPrevSentinel(w, r, w.LibFuncs())
+		for _, o := range r.Obls {
+			fmt.Println(o.Status, o.Pos, o.Key, o.Detail)
+		}
 	case "flagreduce":
 		r := NewReport("C10", "quick", "/tmp/dbg")
 		r.W = w
